@@ -17,8 +17,11 @@
      - the "== 0" branch: Cache.delete(n) — look the key up again and re-check ref == 0 under the
        bucket lock, then finalise + delFuncs — or, on a closed cache, n.callFinalizer()      [IZero]
      - Handle creation / the CAS of Handle.Release                                            [IHandle, AStart ORelease]
-     - Close: closed := true under Cache.mu.Lock — enabled only when no goroutine holds RLock —
-       then per node StoreInt32(ref,0) / lru.Evict / callFinalizer                            [AStart OClose, IStoreZero IEvict IFinalize]
+     - Close(false): closed := true under Cache.mu.Lock — enabled only when no goroutine holds RLock —
+       then one lru.Evict per node                                                            [AStart OClose, IEvict]
+     - Close(true): ONE action (flag + the whole StoreInt32(ref,0)/Evict/callFinalizer loop): the
+       property exempts force-close from the release ordering, and the loop's unsynchronised
+       callFinalizer is not faithfully representable at this granularity anyway (see below)   [AStart OClose]
    Outside the model (see props/C17.json): the Go memory model and scheduler; the bucket-array resize
    protocol (the table is a linearizable map here); enumerateNodes* is one atomic snapshot; setFunc,
    value.Release and delFuncs are opaque and run inside the action that calls them; callFinalizer is
@@ -28,15 +31,14 @@ From GL Require Export Conc.Cache.
 
 Inductive instr :=
 | INode (x : N) (sf : setfunc)          (* Get: n.mu.Lock(); if n.value == nil { ... setFunc ... } *)
-| IPromote (x : N)                      (* Get: r.cacher.Promote(n), the locked part *)
+| IPromote (x : N)                      (* Get: r.cacher.Promote(n), the locked part; then IHandle *)
 | IHandle (x : N)                       (* Get: return &Handle{n} — the reference passes to the handle *)
 | IDec (x : N) (ext : bool)             (* atomic.AddInt32(&n.ref, -1); ext: unRefExternal, else unRefInternal *)
 | IZero (x ns key : N) (ext : bool)     (* the branch taken when the decrement returned 0 *)
-| IDelReg (x d : N)                     (* Delete: n.delFuncs = append(n.delFuncs, delFunc) under n.mu *)
+| IDelReg (x : N)                       (* Delete: n.delFuncs = append(n.delFuncs, delFunc) under n.mu
+                                           (the delFunc's id is drawn here) *)
 | IBan (x : N)                          (* Delete: r.cacher.Ban(n), the locked part *)
-| IEvict (x : N)                        (* r.cacher.Evict(n), the locked part *)
-| IStoreZero (x : N)                    (* Close(true): atomic.StoreInt32(&n.ref, 0) *)
-| IFinalize (x : N).                    (* Close(true): n.callFinalizer() *)
+| IEvict (x : N).                       (* r.cacher.Evict(n), the locked part *)
 
 (* ---- the locked parts of the lru methods: they return the lru handles to release afterwards *)
 
@@ -88,7 +90,7 @@ Definition decs (ext : bool) (ev : list N) : list instr := map (fun x => IDec x 
 Definition exec (i : instr) (s : state) : state * list instr :=
   match i with
   | INode x sf =>
-      let fin := (if s_cacher s then [IPromote x] else []) ++ [IHandle x] in
+      let fin := if s_cacher s then [IPromote x] else [IHandle x] in
       match find_id x (s_nodes s) with
       | None => (set_panic s, [])
       | Some n =>
@@ -105,7 +107,7 @@ Definition exec (i : instr) (s : state) : state * list instr :=
               end
           end
       end
-  | IPromote x => let (s', ev) := promote_locked x s in (s', decs true ev)
+  | IPromote x => let (s', ev) := promote_locked x s in (s', decs true ev ++ [IHandle x])
   | IHandle x =>
       match find_id x (s_nodes s) with
       | Some n =>
@@ -124,15 +126,14 @@ Definition exec (i : instr) (s : state) : state * list instr :=
       end
   | IZero x ns key ext =>
       (if ext && s_closed s then call_finalizer false x s else cache_delete ns key s, [])
-  | IDelReg x d =>
+  | IDelReg x =>
+      let d := s_next_did s in
       match find_id x (s_nodes s) with
-      | Some n => (emit (EvDelReg d x) (upd_node x (nd_dels (n_dels n ++ [d])) s), [])
+      | Some n => (emit (EvDelReg d x) (upd_node x (nd_dels (n_dels n ++ [d])) (set_next_did (d + 1) s)), [])
       | None => (set_panic s, [])
       end
   | IBan x => let (s', ev) := ban_locked x s in (s', decs true ev)
   | IEvict x => let (s', ev) := evict_locked x s in (s', decs true ev)
-  | IStoreZero x => (upd_node x (nd_ref 0%Z) s, [])
-  | IFinalize x => (call_finalizer true x s, [])
   end.
 
 (* ---- starting an operation: its first critical section; returns the shared state, the code left to
@@ -152,12 +153,12 @@ Definition start (o : op) (rlocked_elsewhere : bool) (s : state) : option (state
       end
   | ODelete ns key wd =>
       if s_closed s then Some (s, [], false) else
-      let d := s_next_did s in
-      let s0 := if wd then set_next_did (d + 1) s else s in
-      match bucket_get ns key true s0 with
+      match bucket_get ns key true s with
       | (s1, Some x) =>
-          Some (s1, (if wd then [IDelReg x d] else []) ++ (if s_cacher s1 then [IBan x] else []) ++ [IDec x false], true)
-      | (s1, None) => Some (if wd then emit (EvDelRun d) s1 else s1, [], false)
+          Some (s1, (if wd then [IDelReg x] else []) ++ (if s_cacher s1 then [IBan x] else []) ++ [IDec x false], true)
+      | (s1, None) =>
+          let d := s_next_did s1 in
+          Some (if wd then emit (EvDelRun d) (set_next_did (d + 1) s1) else s1, [], false)
       end
   | OEvict ns key =>
       if s_closed s then Some (s, [], false) else
@@ -178,11 +179,8 @@ Definition start (o : op) (rlocked_elsewhere : bool) (s : state) : option (state
   | OClose force =>
       if s_closed s then Some (s, [], false) else
       if rlocked_elsewhere then None else
-      Some (set_closed true force s,
-            flat_map (fun x => (if force then [IStoreZero x] else []) ++
-                               (if s_cacher s then [IEvict x] else []) ++
-                               (if force then [IFinalize x] else [])) (map n_id (s_nodes s)),
-            false)
+      if force then Some (cache_close true s, [], false) else
+      Some (set_closed true false s, if s_cacher s then map IEvict (map n_id (s_nodes s)) else [], false)
   end.
 
 (* ---- goroutines *)
@@ -228,10 +226,28 @@ Definition lstep (L : lstate) (a : action) : option lstate :=
 
 Definition linit (cacher : bool) (cap : N) : lstate := mkL (init cacher cap) [].
 
+(* Close is called while no other goroutine is inside a cache call *)
+Definition others_idle (t : N) (l : list (N * thread)) : bool :=
+  forallb (fun p => (fst p =? t) || match t_code (snd p) with [] => true | _ => false end) l.
+Definition is_close (a : action) : bool := match a with AStart _ (OClose _) => true | _ => false end.
+Definition act_thread (a : action) : N := match a with AStart t _ | AStep t => t end.
+Definition lstep_q (L : lstate) (a : action) : option lstate :=
+  if is_close a && negb (others_idle (act_thread a) (l_thr L)) then None else lstep L a.
+
 (* all interleavings: the states reachable by any finite sequence of enabled actions *)
 Inductive lreach : lstate -> Prop :=
 | lr_init cacher cap : lreach (linit cacher cap)
 | lr_step L a L' : lreach L -> lstep L a = Some L' -> lreach L'.
+
+(* the open cache: Close is not an action *)
+Definition lstep_o (L : lstate) (a : action) : option lstate := if is_close a then None else lstep L a.
+Inductive lreach_o : lstate -> Prop :=
+| lo_init cacher cap : lreach_o (linit cacher cap)
+| lo_step L a L' : lreach_o L -> lstep_o L a = Some L' -> lreach_o L'.
+
+Inductive lreach_q : lstate -> Prop :=
+| lq_init cacher cap : lreach_q (linit cacher cap)
+| lq_step L a L' : lreach_q L -> lstep_q L a = Some L' -> lreach_q L'.
 
 (* executable trace acceptor (for replaying recorded schedules) *)
 Fixpoint lrun (L : lstate) (tr : list action) : option lstate :=
@@ -240,18 +256,29 @@ Fixpoint lrun (L : lstate) (tr : list action) : option lstate :=
   | a :: tr' => match lstep L a with Some L' => lrun L' tr' | None => None end
   end.
 
+Fixpoint lrun_o (L : lstate) (tr : list action) : option lstate :=
+  match tr with
+  | [] => Some L
+  | a :: tr' => match lstep_o L a with Some L' => lrun_o L' tr' | None => None end
+  end.
+
 (* one goroutine running alone until its code is exhausted *)
 Inductive drains : state -> list instr -> state -> Prop :=
 | dr_nil s : drains s [] s
 | dr_cons s i k s1 new s2 : exec i s = (s1, new) -> drains s1 (new ++ k) s2 -> drains s (i :: k) s2.
 
 (* in-flight references held by pending instructions (the reference taken by mBucket.get travels with
-   INode / IHandle / the final IDec; every collected lru handle is an IDec) *)
+   INode / IPromote / IHandle / the final IDec; every collected lru handle is an IDec) *)
 Definition instr_ref (x : N) (i : instr) : Z :=
   match i with
-  | INode y _ | IHandle y | IDec y _ => if y =? x then 1%Z else 0%Z
+  | INode y _ | IPromote y | IHandle y | IDec y _ => if y =? x then 1%Z else 0%Z
   | _ => 0%Z
   end.
 Definition code_ref (x : N) (k : list instr) : Z := fold_right (fun i a => (instr_ref x i + a)%Z) 0%Z k.
 Definition pend_ref (x : N) (l : list (N * thread)) : Z :=
   fold_right (fun p a => (code_ref x (t_code (snd p)) + a)%Z) 0%Z l.
+
+(* nodes whose dropped-to-zero reference count still awaits its check *)
+Definition is_zero (x : N) (i : instr) : bool := match i with IZero y _ _ _ => y =? x | _ => false end.
+Definition zero_pending (l : list (N * thread)) (x : N) : bool :=
+  existsb (fun p => existsb (is_zero x) (t_code (snd p))) l.
